@@ -34,6 +34,8 @@ CONFIGS = [
     {"maxPos": 8, "nodeSpacing": 1.5, "stubWidth": 0, "density": 1.0},
     {"minPos": -2.5, "maxPos": 7.5, "nodeSpacing": 7, "density": 0.3},
     {"minPos": -8, "maxPos": 0},
+    {"layerWidth": 6, "density": 0.5},  # a layer width without an upper bound must not split anything
+    {"maxPos": 12, "nodeSpacing": 0.5, "density": 0.3, "stubWidth": 1},  # split without collisions: stubs closer than the line spacing
     # ---- thorough only
     {"maxPos": 14},
     {"maxPos": 6},
@@ -65,6 +67,9 @@ NEAR_TIES = [0.1 + 0.2, 0.3, 0.1 * 7, 1 - 0.3, 3.0, 3.0000000000000004, 2.999999
 NEAR_CONFIGS = [{}, {"algorithm": "none"}, {"maxPos": 6, "minPos": 1, "algorithm": "none"}, {"maxPos": 10},
                 {"maxPos": 9, "algorithm": "simple"}, {"minPos": None, "algorithm": "none", "nodeSpacing": 0}]
 BIG_BASES = (1.0e9, 1.7e12)
+FRAC_CONFIGS = [{}, {"minPos": None}, {"maxPos": 10}, {"maxPos": 10, "stubWidth": 0.5, "nodeSpacing": 1.25},
+                {"minPos": 0.25, "maxPos": 9.6, "nodeSpacing": 0.7, "density": 0.6}, {"maxPos": 8, "algorithm": "simple", "stubWidth": 1.5},
+                {"minPos": -3.3, "algorithm": "none"}]
 
 
 def near_tie_letters():
@@ -355,7 +360,7 @@ def soft_wall_distance(items, lo, hi):
 def evaluate(prop, labels, opts, info, late_width=False):
     """Run one case and apply the oracle of `prop`.  -> (key, reason) | None"""
     try:
-        with horizon(300.0):
+        with horizon(60.0):
             force, nodes = run_engine(labels, opts, late_width=late_width)
     except Hang as e:
         return ("HANG", str(e))
@@ -386,7 +391,7 @@ def evaluate(prop, labels, opts, info, late_width=False):
             bad = check_c03_layer(items, ns, lo, hi, info)
         else:
             bad = None
-        if bad and prop in ("C02", "C03") and soft_wall_distance(items, lo, hi) >= 1e8 and bad[0] in (
+        if bad and prop in ("C02", "C03") and soft_wall_distance(items, lo, hi) >= 4e9 and bad[0] in (
                 "C02:not-least-squares", "C03:lower-bound", "C03:upper-bound"):
             return ("%s:soft-wall-far-target" % prop, bad[1] + " [targets lie %.3g units outside the bounds]"
                     % soft_wall_distance(items, lo, hi))
@@ -406,12 +411,13 @@ def multisets(alpha, nmax):
 def plan_layout(tier, seed, nshards=64):
     parts = []
     if tier == "quick":
-        parts.append({"alpha": "v0", "nmax": 4, "nconf": 11})
+        parts.append({"alpha": "v0", "nmax": 4, "nconf": 13})
     else:
-        parts.append({"alpha": "v0", "nmax": 5, "nconf": 25})
-        parts.append({"alpha": "v1", "nmax": 4, "nconf": 11})
-    parts.append({"alpha": "seed", "nmax": 3, "nconf": 11, "seed": seed})
-    parts.append({"alpha": "w4", "nmax": 5 if tier == "quick" else 7, "nconf": 11})  # one width: more labels per input
+        parts.append({"alpha": "v0", "nmax": 5, "nconf": 27})
+        parts.append({"alpha": "v1", "nmax": 4, "nconf": 13})
+    parts.append({"alpha": "seed", "nmax": 3, "nconf": 13, "seed": seed})
+    parts.append({"alpha": "w4", "nmax": 5 if tier == "quick" else 7, "nconf": 13})  # one width: more labels per input
+    parts.append({"alpha": "frac", "nmax": 3 if tier == "quick" else 4, "nconf": len(FRAC_CONFIGS)})  # fractional widths
     parts.append({"alpha": "near", "nmax": 3 if tier == "quick" else 4, "nconf": len(NEAR_CONFIGS)})
     for base in BIG_BASES:
         parts.append({"alpha": "big", "base": base, "nmax": 3 if tier == "quick" else 4, "nconf": 5})
@@ -439,6 +445,8 @@ def part_alpha(p):
         return letters("t", 1)
     if p["alpha"] == "w4":
         return [(q, 4) for q in POS13]
+    if p["alpha"] == "frac":
+        return [(q, w) for q in POS13[::2] for w in (2.5, 0.5, 3.3)]
     if p["alpha"] == "near":
         return near_tie_letters()
     if p["alpha"] == "big":
@@ -447,6 +455,8 @@ def part_alpha(p):
 
 
 def part_menu(p):
+    if p["alpha"] == "frac":
+        return FRAC_CONFIGS
     if p["alpha"] == "near":
         return NEAR_CONFIGS
     if p["alpha"] == "big":
@@ -454,7 +464,7 @@ def part_menu(p):
     return CONFIGS
 
 
-PART_ORDER = {"v0": 0, "v1": 1, "seed": 2, "near": 3, "big": 4, "w4": 5}
+PART_ORDER = {"v0": 0, "v1": 1, "seed": 2, "near": 3, "big": 4, "w4": 5, "frac": 6}
 SWEEP_WIDTHS = {"all4": lambda i: 4, "alt1-7": lambda i: 1 if i % 2 == 0 else 7, "w2.5": lambda i: 2.5}
 WIDE = {"w400": lambda i: 400}  # heavy blocks: the summed displacement against a bound reaches ~1e7
 SWEEP_CONFIGS = [{}, {"minPos": None}, {"maxPos": 300}, "fit-exact"]
@@ -493,6 +503,9 @@ def sweep_cases(ns_list, configs=None, pitches=None):
 
 
 PROBE = {"labels": [(5.0e9, 4), (5.0e9 + 2, 4)], "opts": {"minPos": 0, "maxPos": 100}}
+# below the known finding's threshold the bounds must hold: targets 1e6 .. 1e9 units outside them move a 1e10 wall by < 0.2
+NEAR_PROBES = [{"labels": [(d, 4), (d + 2, 4)], "opts": {"minPos": 0, "maxPos": 100}} for d in (1.0e6, -1.0e8, 2.0e8, 1.0e9)] + \
+              [{"labels": [(-3.0e5 - 7 * i, 4) for i in range(60)], "opts": {"minPos": 0, "algorithm": "none"}}]
 
 
 def run_layout_shard(prop, shard):
@@ -506,6 +519,15 @@ def run_layout_shard(prop, shard):
         acc.trans += 1
         if bad:
             acc.violation(PROBE, bad[0], bad[1], order=(9, 0, 0, 0))
+        for pi, pr in enumerate(NEAR_PROBES):
+            info = _Info(acc)
+            bad = evaluate(prop, pr["labels"], pr["opts"], info)
+            acc.evals += 1
+            acc.states += 1
+            acc.trans += 1
+            acc.counters["far_target_cases"] += 1
+            if bad:
+                acc.violation(pr, bad[0], bad[1], order=(8, pi, 0, 0))
         return acc
     if shard["kind"] == "multisets":
         p = shard["part"]
@@ -589,7 +611,7 @@ def bounds(tier, seed):
     return {
         "alphabet": "positions 0..6 step 0.5 x widths {1,4}" + (" (+2.5 at n<=4)" if tier == "thorough" else ""),
         "max_labels": "4 (5 with one width)" if tier == "quick" else "5 (7 with one width)",
-        "configs": (11 if tier == "quick" else 25) + len(DEPENDENT),
+        "configs": (13 if tier == "quick" else 27) + len(DEPENDENT),
         "seeded_slice": {"seed": seed, "letters": seeded_letters(seed)[:4], "nmax": 3},
         "near_tie_targets": NEAR_TIES, "big_magnitudes": list(BIG_BASES),
         "sweep": "n=1..200 x 6 pitches x 3 width patterns x 4 configs" if tier == "thorough" else
